@@ -144,6 +144,36 @@ Theorem C17_ctl_equiv_target_list : forall rx all cs st rs ph phs rq,
 Proof. exact ctl_target_list_equiv. Qed.
 Print Assumptions C17_ctl_equiv_target_list.
 
+(* a LIST of removals executed in one transaction (3-6 ranges in any order, ids, tags, msgs mixed): the rest
+   of the transaction behaves as over the rule list without the rules whose id is in the UNION *)
+Theorem C17_ctl_equiv_remove_list : forall rx all cs st rs ph phs rq,
+  forallb is_rm_ctl cs = true ->
+  obs (cf_rest rx all rs ph phs rq (fold_left (fun s c => cf_ctl_step all c s) cs st))
+  = obs (cf_rest rx (allP all (rm_set_list all cs)) (filter (keepP (rm_set_list all cs)) rs) ph phs rq st).
+Proof. exact ctl_remove_list_equiv. Qed.
+Print Assumptions C17_ctl_equiv_remove_list.
+
+(* ranges enumerate their members: an id is in the union iff some entry is that id or a valid range around it *)
+Theorem C17_ctl_ranges_enumerate : forall all (l : list idspec) id,
+  rm_set_list all (map CRmId l) id = existsb (fun sp => spec_valid sp && spec_has sp id) l.
+Proof. exact rm_set_list_ids. Qed.
+Print Assumptions C17_ctl_ranges_enumerate.
+
+(* the order of execution is irrelevant: same removed ids, same rest of the transaction for any permutation *)
+Theorem C17_ctl_remove_order_irrelevant : forall all cs cs' st id,
+  Permutation.Permutation cs cs' -> forallb is_rm_ctl cs = true ->
+  is_removed (fold_left (fun s c => cf_ctl_step all c s) cs st) id
+  = is_removed (fold_left (fun s c => cf_ctl_step all c s) cs' st) id.
+Proof. exact ctl_remove_order_irrelevant. Qed.
+Print Assumptions C17_ctl_remove_order_irrelevant.
+
+Theorem C17_ctl_remove_perm_rest : forall rx all cs cs' st rs ph phs rq,
+  Permutation.Permutation cs cs' -> forallb is_rm_ctl cs = true ->
+  obs (cf_rest rx all rs ph phs rq (fold_left (fun s c => cf_ctl_step all c s) cs st))
+  = obs (cf_rest rx all rs ph phs rq (fold_left (fun s c => cf_ctl_step all c s) cs' st)).
+Proof. exact ctl_remove_perm_rest. Qed.
+Print Assumptions C17_ctl_remove_perm_rest.
+
 Theorem C17_run_is_rest : forall rx rules rq, cf_run rx rules rq = cf_rest rx rules rules 1 [2] rq st_init.
 Proof. exact cf_run_rest. Qed.
 Print Assumptions C17_run_is_rest.
